@@ -277,7 +277,7 @@ def setup(ctx):
         if name in functions.FUNCTIONS:
             extra.append('__setitem__(%s(%s), 0, 99)\n%s(%s)' % (name, args, name, args))
             extra.append('%s(%s)' % (name, args))
-    for name in sorted(n for n in functions.FUNCTIONS if n not in gram.PINNED_TABLE):
+    for name in gram.new_table_names():
         for args in ('"[1, 2, 3]"', '[3, 1, 2]', '{"a": [1], "b": 2}', '"a,b", ","', '5', '"abc"', '[1, 2], v => v', '{"a": 1}, {"a": 2}'):
             extra.append('__setitem__(%s(%s), 0, 99)\n%s(%s)' % (name, args, name, args))
             extra.append('__setitem__(%s(%s), "zz", 99)\npop(%s(%s))\n%s(%s)' % ((name, args) * 3))
